@@ -16,7 +16,7 @@ CHECKS = {
              "generated at the Val level, encoded by the library and decoded again; a case is non-trivial and distinct when "
              "the library produced an encoding and the pair (type, encoding bytes) was not seen before in its shard "
              "(shards partition the types, so the per-shard sets are disjoint)",
-        floors={"any": {"roundtrip_ok": 1000, "types": 100, "local_time_cases_under_dst_zone": 1000}},
+        floors={"any": {"roundtrip_ok": 1000, "types": 100, "local_time_cases_under_dst_zone": 1000, "big_values_ok": 50}},
         assumptions=["Val equality (floats by bit pattern, sets/maps order-free) is the equality the property means",
                      "TZ=UTC is pinned for all lanes except the local-time lanes, which set TZ to a daylight-saving zone by POSIX rule and skip wall-clock times that zone cannot represent unambiguously"],
     ),
@@ -61,7 +61,7 @@ CHECKS = {
              "decode it to the value; distinct = distinct (type, bytes) pairs",
         floors={"any": {"emitted_conforms": 5000, "reference_encoding_decodes": 5000,
                         "reference_encodings_with_unknown_length_form": 500,
-                        "golden_file_decoded_identically_and_reencoded_byte_exact_by_reference": 1}},
+                        "golden_file_decoded_identically_and_reencoded_byte_exact_by_reference": 1, "big_values_ok": 50}},
         assumptions=["chrono / uuid / big-number layouts are frozen as found on the pinned tree (no external document)"],
     ),
     "C05": dict(
@@ -100,7 +100,7 @@ CHECKS = {
              "len(s) bytes must remain; s is empty, one hostile byte, random bytes, a copy of the encoding or another valid "
              "encoding; in addition 2-5 heterogeneous values are written into one stream and read back one after another; "
              "non-trivial = non-empty suffix or multi-value stream, distinct by (type, buffer)",
-        floors={"any": {"exact_consumption": 5000, "streams_read_back": 100}},
+        floors={"any": {"exact_consumption": 5000, "streams_read_back": 100, "big_values_ok": 50, "cross_version_exact_consumption": 1000}},
     ),
     "C08": dict(
         claim='Fault enumeration over crash points: every strict prefix of every generated encoding (all cut points up to 4 KiB) is fed to the decoder; each must be rejected with Err.',
@@ -112,7 +112,7 @@ CHECKS = {
         rule="fault = truncation at a cut point: for every generated encoding of at most 4 KiB every strict prefix is decoded "
              "(longer ones: first and last 256 cuts plus 256 random); each must give Err — Ok or a panic is a violation; "
              "distinct = distinct (type, prefix) pairs",
-        floors={"any": {"rejected": 100000, "rejected_unknown_length_form": 10000, "cross_version_rejected": 10000}},
+        floors={"any": {"rejected": 100000, "rejected_unknown_length_form": 10000, "cross_version_rejected": 10000, "big_values_ok": 50}},
     ),
     "C09": dict(
         claim="Held on N observed executions: flat streams of deduplicated / plain string writes (all patterns up to length 4, 5 in the thorough tier, over a 7-string alphabet; random longer ones) are written by the library and compared byte for byte with a reference string table (first occurrence = plain string, repeat = zig-zag varint of minus its id, ids from 1 in first-occurrence order), read back, and probed with ids that were never introduced; plus every subject type containing deduplicated strings (tuples, sequences, v0 and evolved records with and without names in the header).",
@@ -178,7 +178,7 @@ CHECKS = {
         level="exploration",
         quick=NATIVE, thorough=NATIVE + [("fresh", 1.0, {"only": "fresh"})],
         rule="cases: (type, value) across 5 sinks + size calculator; (buffer, read sequence) across 3 inputs; distinct by (type, bytes) / (buffer, ops)",
-        floors={"any": {"all_sinks_agree_and_size_exact": 10000, "input_sequences_agree": 10000}},
+        floors={"any": {"all_sinks_agree_and_size_exact": 10000, "input_sequences_agree": 10000, "big_values_ok": 50}},
     ),
     "C16": dict(
         claim="Fault enumeration on compressed frames: contents (zero, random, periodic, text, mixed) x sizes 0 .. 1 MiB (16 MiB thorough) x levels 0-9 x both sinks x all three sources with trailing data: frame == varint(len d) ++ varint(len z) ++ z with z inflating to d (checked with an independent inflate), following bytes intact; every truncation of frames <= 4 KiB is an error; every single-bit flip of small frames, random flips of large ones and header rewrites give Ok or Err, no panic, and no single allocation request above max(64 KiB, 2 x bytes actually produced) (allocation monitor).",
